@@ -1,0 +1,17 @@
+//go:build verif
+
+// Contracts for the virtual channel database as seen by cesium's stream writer (read as text by
+// /verif's govc; comment-only).
+
+package virtual
+
+//@ import control "github.com/synnaxlabs/cesium/internal/control"
+
+//@ # a refused or failed open returns no writer
+//@ trusted func (db *DB) OpenWriter(_ context.Context, cfgs ...WriterConfig) (w *Writer, transfer control.Transfer, err error)
+//@   ensures (err == nil) == (w != nil)
+//@   modifies nothing
+//@ # Close reads the writer's fields: it must not be called on a nil writer
+//@ trusted func (w *Writer) Close() (t control.Transfer, err error)
+//@   requires w != nil
+//@   modifies nothing
